@@ -497,6 +497,11 @@ def pack2d(RVARA, verbose=False):
     # positive or whole number scaling round up for lower precision
     if SEXP >= 0.0 or (SEXP % 1.0) == 0.0:
         NEXP = NEXP + 1
+    # each packed difference is taken from the previous element as it will
+    # be unpacked, which can be half a step off: a largest difference above
+    # 127 steps could then leave the byte range (and wrap around)
+    if RMAX * np.float32(2.0**(7 - NEXP)) > 127.0:
+        NEXP = NEXP + 1
     # precision range is -127 to 127 or 254
     PREC = np.float32((2.0**NEXP) / 254.0)
     SCEXP = np.float32(2.0**(7 - NEXP))
